@@ -55,6 +55,19 @@ Fixpoint row_ok (ns : list cell) (skip : Z) : bool :=
   end.
 Definition grid_ok (g : list (list cell)) : bool := forallb (fun r => row_ok r 0) g.
 
+(* the same hypotheses without "no wide cell overhangs the right edge": the guard of the
+   recorded finding wide-overhang is  grid_ok_nofit && negb grid_ok *)
+Fixpoint row_ok_nofit (ns : list cell) (skip : Z) : bool :=
+  match ns with
+  | [] => true
+  | n :: t =>
+      if 0 <? skip then row_ok_nofit t (skip - 1)
+      else negb (c_sixel n) && adv_ok n && (0 <=? c_w n) && (c_mw n =? measure (c_g n)) &&
+           (0 <=? s_attr (c_st n)) && (s_attr (c_st n) <? 256) &&
+           row_ok_nofit t (span n - 1)
+  end.
+Definition grid_ok_nofit (g : list (list cell)) : bool := forallb (fun r => row_ok_nofit r 0) g.
+
 (* ---------- decidable checks on a terminal ---------- *)
 Fixpoint zrange (n : nat) (from : Z) : list Z :=
   match n with O => [] | S k => from :: zrange k (from + 1) end.
